@@ -102,7 +102,7 @@ func VerifC10Steps() {
 	h := &c10H{W: sec}
 	verifSetNow(1_700_000_000*sec + sec/10)
 	quota := int64(1 + verifChoose("quota", 2))
-	maxQ := int64(1 + verifChoose("queueSize", 2))
+	maxQ := int64(1 + verifChoose("queueSize", int(verifParam("queueMax", 2))))
 	q := NewInMemoryDelayedPriorityQueue(QueueKey{RemedyName: "r", Strategy: Strategy{WindowQuota: quota, WindowSize: time.Second}}, verifClock{}, logging.ContextLogger{})
 	verifDrain()
 	n := 0
